@@ -57,6 +57,9 @@ def g1_nodes(draw, min_nodes=2, max_nodes=7, prefix="n", out_prefix="o", in_pref
             # legal output values that are falsy / None, and tuples of length 0, 1, 2 returned for ONE declared output (the value is
             # the tuple itself: nothing is unpacked)
             spec["ret"] = draw(st.sampled_from([None, None, 0, False, "", [], ["solo"], [[]], ["two", "parts"], [None]]))
+        if prob(draw, 0.15):
+            # in the async flavour: a plain `def` that hands back a coroutine (an async function behind an ordinary decorator)
+            spec["coro_def"] = True
         nodes.append(spec)
         for o in outs:
             produced.add(o)
